@@ -571,6 +571,79 @@ def check_arpa_model(case):
 # case generators
 
 
+def check_trie_view(case):
+    """run-time contract on `_build_trie` (the other half of C06.P.descent_is_katz_on_the_view): the built buffers satisfy every
+    precondition of the descent's contract (sizes, level function, child ranges inside the buffers with at most S slots, sibling
+    tokens pairwise different) and their abstract view - the n-grams read off the root-to-node token paths with the stored
+    log-probability / back-off - is the table, plus only (-inf, 0) entries (which the recursion treats like absent ones)."""
+    import torch
+
+    lm, oracle = build(case)
+    V, sos, N, tab = oracle.V, oracle.sos, oracle.N, oracle.tab
+    shift = 0 if 0 <= sos < V else 1
+    off, ids, lps, lbs = lm.offsets.tolist(), lm.ids.tolist(), lm.logps.tolist(), lm.logbs.tolist()
+    G, S = lm.max_ngram_nodes, lm.max_direct_descendants
+    O = len(off)
+    U = V + shift + (1 % N)
+    P = O + G
+    f32 = lambda v: torch.tensor(v, dtype=torch.float32).item()
+    if not (len(ids) == O + G - U and len(lps) == P and len(lbs) == O and G >= 1 and (N == 1 or (O >= U and 0 <= S <= V + shift))):
+        return "%s: buffer sizes O=%d G=%d S=%d U=%d ids=%d logps=%d logbs=%d break the descent's precondition" % (describe(tab), O, G, S, U, len(ids), len(lps), len(lbs))
+    view = {}
+    if N == 1:
+        for w in range(V + shift):
+            view[(w,)] = (lps[w], 0.0)
+    else:
+        level = {d: 1 for d in range(V + shift)}
+        key_of = {d: (d,) for d in range(V + shift)}
+        order = list(range(V + shift))
+        i = 0
+        while i < len(order):
+            d = order[i]
+            i += 1
+            view[key_of[d]] = (lps[d], lbs[d] if level[d] < N else 0.0)
+            if not 1 <= level[d] <= N - 1:
+                continue
+            if not (0 <= d and d + 1 < O):
+                return "%s: node %d of level %d has no offsets entry after it (O = %d)" % (describe(tab), d, level[d], O)
+            cs, ce = off[d] + d, off[d + 1] + d + 1
+            if not (U <= cs <= ce <= P and ce - cs <= S):
+                return "%s: node %d: child range [%d, %d) not inside [U=%d, P=%d) with at most S=%d slots" % (describe(tab), d, cs, ce, U, P, S)
+            toks = [ids[p_ - U] for p_ in range(cs, ce)]
+            if len(set(toks)) != len(toks):
+                return "%s: node %d has two children with one token: %s" % (describe(tab), d, toks)
+            for p_ in range(cs, ce):
+                if p_ in level:
+                    return "%s: position %d is a child of two nodes" % (describe(tab), p_)
+                level[p_] = level[d] + 1
+                key_of[p_] = (ids[p_ - U],) + key_of[d]
+                order.append(p_)
+    unmap = lambda key: tuple(sos if (shift and t == V) else t for t in key)
+    view = {unmap(k): v for k, v in view.items()}
+    for key, (lp, bo) in tab.items():
+        got = view.get(key)
+        want = (f32(lp), f32(bo) if len(key) < N else 0.0)
+        if got is None or got[0] != want[0] or got[1] != want[1]:
+            return "%s: listed n-gram %s (%r, %r) appears in the trie's view as %r" % (describe(tab), list(key), want[0], want[1], got)
+    for key, (lp, bo) in view.items():
+        if key not in tab and not (lp == NEG and bo == 0.0):
+            return "%s: the trie's view holds %s = (%r, %r), which the table does not list" % (describe(tab), list(key), lp, bo)
+    return None
+
+
+def cases_trie_view(ctx):
+    seen = set()
+    for gen in (cases_full(ctx), reduced_tables(ctx, 5)):
+        for c in gen:
+            k = (c["V"], c["sos"], c["N"], c.get("present"), c.get("neginf", 0), repr(c.get("grams"))[:2000] if "grams" in c else None, repr(c.get("gen")) if "gen" in c else None)
+            if k in seen:
+                continue
+            seen.add(k)
+            yield c
+    for c in cases_wide(ctx):
+        yield c
+
+
 def _n_grams(V, sos, N):
     return [len(x) for x in canonical_grams(V, sos, N)]
 
@@ -923,6 +996,7 @@ FINDINGS = []
 KNOWN_MATCH = {}
 
 CHECKERS = {
+    "C06.trie.view": check_trie_view,
     "C06.katz.full": check_full,
     "C06.katz.chunked": check_chunked,
     "C06.katz.idx": check_idx,
@@ -991,6 +1065,11 @@ def run_bounded(ctx):
                           "254..258" if q else "253..259", "" if q else "; level sums 32765..32770 (order 3, V=200), levels of 33000-34000 nodes, 60 random shapes"),
                 text="same contract as C06.katz.full on tables that cross the integer widths chosen for offsets/ids (bounded stand-in for C06.trie.offset_types)",
                 chunk=1, functions=["_lm.LookupLanguageModel._build_trie"])
+    ctxb.bounded("C06.trie.view", check_trie_view, cases_trie_view(ctx),
+                bound="the table sets of C06.katz.full, C06.katz.chunked and C06.katz.wide_levels (exhaustive small tables, sampled larger ones, levels that cross the integer widths)",
+                text="run-time contract on _build_trie: the built buffers satisfy every precondition of C06.P.descent_is_katz_on_the_view (sizes, level function, child ranges inside the buffers with at most "
+                     "max_direct_descendants slots, sibling tokens pairwise different) and the abstract view of the trie (n-grams read off the token paths, stored log-probability / back-off) is the table plus only (-inf, 0) entries",
+                nontrivial=_sparse, chunk=256, functions=["_lm.LookupLanguageModel._build_trie", "_lm.LookupLanguageModel._infer_max_direct_descendants"])
     fa = ["_parsing.parse_arpa_lm"]
     ctxb.bounded("C06.arpa.exact", check_arpa, cases_arpa(ctx),
                 bound="EXHAUSTIVE: tokens {a,b}, orders 1..2, every choice of listed n-grams (each order non-empty) x to_base_e in {default,False,True} x token2id in {none,identity-like,"
